@@ -38,6 +38,10 @@ struct State {
     bool ctor_active = false;
     std::vector<Ev> evs;
     int waiter_threads = 0;
+    long datum = 0;  // plain data written by the only triggering thread before it triggers
+    int trig_threads = 0;
+    bool has_reset = false;
+    int epochs = 1;
 };
 State* S;
 
@@ -74,6 +78,7 @@ void body(int t)
                 break;
             }
             case OP_TRIGGER_UNTIL: {
+                if (S->trig_threads == 1 && !S->has_reset && S->epochs == 1) S->datum = 4711;
                 for (;;) {
                     int e = begin_ev(OP_TRIGGER_ONCE);
                     bool r = S->tv->trigger();
@@ -94,6 +99,14 @@ void body(int t)
                 bool r = S->tv->wait();
                 end_ev(e, r);
                 if (!r) gsim::fail("wrong_result", "wait() returned false");
+                // if the variable reads as triggered, whatever the (only) triggering
+                // thread wrote before trigger() is visible
+                if (S->trig_threads == 1 && !S->has_reset && S->epochs == 1 && S->tv->isTriggered()) {
+                    if (S->datum != 4711)
+                        gsim::fail("stale_publication", "datum written before trigger() reads %ld "
+                                   "after wait() returned on a triggered variable", S->datum);
+                    gsim::probe("trigger.publication_checked");
+                }
                 break;
             }
             case OP_WAIT_FOR: {
@@ -197,6 +210,16 @@ void validate()
         if (!act_first) gsim::fail("harness", "reset_now needs an activation");
     } else if (needs_trig && !(trig_first && act_first)) {
         gsim::fail("harness", "program has wait() but no unconditional trigger_until");
+    }
+    {
+        int tt = 0, once = 0;
+        for (int t = 0; t < n; t++)
+            for (int i = 0; i < gsim::prog_len(t); i++) {
+                if (gsim::prog_op(t, i).code == OP_TRIGGER_UNTIL) tt++;
+                if (gsim::prog_op(t, i).code == OP_TRIGGER_ONCE) once++;
+            }
+        S->trig_threads = (once == 0) ? tt : 99;
+        S->has_reset = has_reset_after || has_reset_now;
     }
     // marker "an activation has completed" for reset_now when only the constructor activates
     if (has_reset_now && !has_activate) gsim::ctr_add(2, 1);
@@ -331,6 +354,7 @@ void run()
     S = &st;
     st.ctor_active = gsim::knob("ctor_active", 0, 3) == 0;
     int epochs = gsim::knob("epochs", 1, 2);
+    st.epochs = epochs;
     if (!gsim::prog_loaded()) gen_epoch();
     gsim::enable_fault(gsim::F_SPURIOUS_WAKE, gsim::knob("spurious", 0, 2) * 150);
     gsim::enable_fault(gsim::F_TIME_JUMP, gsim::knob("time_jump", 0, 2) * 15);
